@@ -13,7 +13,9 @@ func Copy(source, dest string) error {
 	defer in.Close()
 
 	if sourceInfo, err := in.Stat(); err == nil {
-		if destInfo, err := os.Stat(dest); err == nil && os.SameFile(sourceInfo, destInfo) {
+		/* (Lstat: the name itself is the file. A name that only leads to it
+		 * through a symbolic link is replaced like any other.) */
+		if destInfo, err := os.Lstat(dest); err == nil && os.SameFile(sourceInfo, destInfo) {
 			/* Copying a file onto itself: os.Create would empty it. */
 			return nil
 		}
